@@ -1,6 +1,8 @@
 package props
 
 import (
+	"github.com/multiformats/go-multihash"
+	"github.com/ipfs/go-cid"
 	"context"
 	"fmt"
 	"math/rand"
@@ -303,6 +305,17 @@ func c09PubsubOne(c *vf.Ctx, sub string, i int, r *rand.Rand) string {
 		}
 		if nB := countOf(colB, func(a announce.Announce) bool { return a.Cid.Equals(cid2) }); nB != 1 {
 			c.Fail(sub, i, "republication-delivered-not-once", fmt.Sprint(nB), wit())
+		}
+		// (d) an announcement that cannot be republished (its CID is too long for the wire encoding) is an
+		// allowed, new announcement all the same: the relay's own consumer gets it
+		mhL, _ := multihash.Sum(rbytes(r, 560+r.Intn(200)), multihash.IDENTITY, -1)
+		cid4 := cid.NewCidV1(cid.Raw, mhL)
+		if err := rcR.Direct(context.Background(), cid4, peer.AddrInfo{ID: P.ID, Addrs: []multiaddr.Multiaddr{pubAddr}}); err != nil {
+			c.Fail(sub, i, "direct-error-when-republication-fails", err.Error(), wit())
+		} else if _, got := waitFor(colR, 20*time.Second, func(a announce.Announce) bool { return a.Cid.Equals(cid4) }); !got {
+			c.Fail(sub, i, "announcement-not-delivered-when-republication-fails", "the relay's consumer never saw the directly announced advertisement", wit())
+		} else {
+			c.Inc("delivered_although_republication_failed")
 		}
 		c.Inc("pubsub_runs_completed")
 		c.Inc("pubsub_allow_filter_on_B_" + bMode)
